@@ -437,6 +437,56 @@ mode_run(int argc, char **argv)
         return fails ? 1 : 0;
 }
 
+
+/* ------------------------------------------------------------------------- */
+/* probe: which OOO manager does each item park in (submitted alone on an empty manager)? */
+
+static int
+mode_probe(int argc, char **argv)
+{
+        if (argc < 5)
+                return 2;
+        IMB_MGR *m = alloc_mb_mgr(strtoull(argv[3], NULL, 0));
+        kscript *s = kscript_load(argv[4]);
+
+        k_init_arch(m, argv[2]);
+        if (imb_get_errno(m) != 0) {
+                printf("SKIP init failed errno=%d\n", imb_get_errno(m));
+                return 3;
+        }
+        printf("VARIANT arch=%u type=%u\n", m->used_arch, (unsigned) m->used_arch_type);
+        for (int i = 0; i < s->nitems; i++) {
+                imbh_run *r = imbh_run_new(m, &s->items[i]);
+
+                if (r->prep_err) {
+                        printf("PROBE %d prep_err=%d\n", i, r->prep_err);
+                        continue;
+                }
+                IMB_JOB *job = IMB_GET_NEXT_JOB(m);
+
+                imbh_fill_job(job, r);
+                job = IMB_SUBMIT_JOB(m);
+                const int err = imb_get_errno(m);
+
+                printf("PROBE %d", i);
+                if (job != NULL)
+                        printf(" immediate status=%d err=%d", (int) job->status, err);
+                else
+                        for (int k = 0; k < GR_NTABLE; k++)
+                                if (k_lanes_in_use(m, &gr_table[k]))
+                                        printf(" %s", gr_table[k].field);
+                if (job == NULL) {
+                        job = IMB_FLUSH_JOB(m);
+                        printf(" flushed=%d", job ? (int) job->status : -1);
+                }
+                printf("\n");
+                while (IMB_FLUSH_JOB(m) != NULL)
+                        ;
+                imbh_run_free(r);
+        }
+        return 0;
+}
+
 int
 main(int argc, char **argv)
 {
@@ -445,6 +495,8 @@ main(int argc, char **argv)
                 return mode_resetimg();
         if (argc >= 2 && !strcmp(argv[1], "run"))
                 return mode_run(argc, argv);
+        if (argc >= 2 && !strcmp(argv[1], "probe"))
+                return mode_probe(argc, argv);
         fprintf(stderr, "usage: %s resetimg | run ...\n", argv[0]);
         return 2;
 }
